@@ -80,10 +80,12 @@ func sameMeaning(a, b selector.Selector) bool {
 func c14SelectorSub() *engine.Sub {
 	data := selectorData()
 	return &engine.Sub{
-		Name: "selector-text",
+		Name:   "selector-text",
 		Repeat: true,
-		Rule: `every string over {. [ ] " ? : - 0 1 a _ \ * space} up to the length bound offered to selector.Parse; for every accepted string: printing reproduces the text (up to '?' after an identity dot), the printed text parses to the same segments with identical Select results on 33 values, and every segment re-parsed alone has the same meaning; non-trivial = accepted strings`,
-		Bound: func(t string) string { return fmt.Sprintf("all strings of length <=%d over 14 symbols", tierN(t, 5, 8)) },
+		Rule:   `every string over {. [ ] " ? : - 0 1 a _ \ * space} up to the length bound offered to selector.Parse; for every accepted string: printing reproduces the text (up to '?' after an identity dot), the printed text parses to the same segments with identical Select results on 33 values, and every segment re-parsed alone has the same meaning; non-trivial = accepted strings`,
+		Bound: func(t string) string {
+			return fmt.Sprintf("all strings of length <=%d over 14 symbols", tierN(t, 5, 8))
+		},
 		Gen: func(tier string, emit func(any) bool) {
 			n := tierN(tier, 5, 8)
 			// strings not starting with '.' are rejected by the first test of Parse; they are
@@ -240,10 +242,12 @@ func pick(s []string, n int) []string {
 
 func c14PolicySub() *engine.Sub {
 	return &engine.Sub{
-		Name: "policy-ipld-roundtrip",
+		Name:   "policy-ipld-roundtrip",
 		Repeat: true,
-		Rule: "policies = lists of <=2 statements built from every operator (11 + one unknown) x arity 1..4 x argument kinds (selector-like/pattern-like strings, int, null, map, list, nested statements), offered as DAG-JSON text to policy.FromDagJson and as a node to policy.FromIPLD; rejected, or ToIPLD(FromIPLD(n)) deep-equals n up to selector normalisation and String() does not fail; non-trivial = accepted",
-		Bound: func(t string) string { return fmt.Sprintf("statement nesting depth <=%d, policies of 0..2 statements", tierN(t, 1, 2)) },
+		Rule:   "policies = lists of <=2 statements built from every operator (11 + one unknown) x arity 1..4 x argument kinds (selector-like/pattern-like strings, int, null, map, list, nested statements), offered as DAG-JSON text to policy.FromDagJson and as a node to policy.FromIPLD; rejected, or ToIPLD(FromIPLD(n)) deep-equals n up to selector normalisation and String() does not fail; non-trivial = accepted",
+		Bound: func(t string) string {
+			return fmt.Sprintf("statement nesting depth <=%d, policies of 0..2 statements", tierN(t, 1, 2))
+		},
 		Gen: func(tier string, emit func(any) bool) {
 			st := c14Statements(tierN(tier, 1, 2))
 			if !emit(&c14PolCase{JSON: `[]`}) {
@@ -369,10 +373,12 @@ func c14CtorSelSub() *engine.Sub {
 		"All":                func(s string) policy.Constructor { return policy.All(s, policy.Equal(".", nInt(1))) },
 		"Any":                func(s string) policy.Constructor { return policy.Any(s, policy.Equal(".", nInt(1))) },
 		"Not(Equal)":         func(s string) policy.Constructor { return policy.Not(policy.Equal(s, nInt(1))) },
-		"And(Equal,All)":     func(s string) policy.Constructor { return policy.And(policy.Equal(".a", nInt(1)), policy.All(s, policy.Equal(".", nInt(1)))) },
-		"Or(Any)":            func(s string) policy.Constructor { return policy.Or(policy.Any(s, policy.Like(".", "*"))) },
-		"All(inner)":         func(s string) policy.Constructor { return policy.All(".l", policy.Equal(s, nInt(1))) },
-		"Any(inner-like)":    func(s string) policy.Constructor { return policy.Any(".l", policy.Like(s, "*")) },
+		"And(Equal,All)": func(s string) policy.Constructor {
+			return policy.And(policy.Equal(".a", nInt(1)), policy.All(s, policy.Equal(".", nInt(1))))
+		},
+		"Or(Any)":         func(s string) policy.Constructor { return policy.Or(policy.Any(s, policy.Like(".", "*"))) },
+		"All(inner)":      func(s string) policy.Constructor { return policy.All(".l", policy.Equal(s, nInt(1))) },
+		"Any(inner-like)": func(s string) policy.Constructor { return policy.Any(".l", policy.Like(s, "*")) },
 	}
 	var names []string
 	for k := range ctors {
@@ -382,7 +388,9 @@ func c14CtorSelSub() *engine.Sub {
 	return &engine.Sub{
 		Name: "constructors-vs-selector-texts",
 		Rule: "13 constructor shapes (every constructor that takes a selector, alone and nested) x every string over the selector alphabet up to length 4 plus a list of longer valid / invalid selectors: policy.Construct fails exactly when selector.Parse rejects the text; an accepted policy converts to IPLD, is accepted by FromIPLD and matches identically afterwards; non-trivial = texts accepted by selector.Parse",
-		Bound: func(string) string { return "13 constructor shapes x (all strings of length <=4 over 14 symbols + 24 longer texts)" },
+		Bound: func(string) string {
+			return "13 constructor shapes x (all strings of length <=4 over 14 symbols + 24 longer texts)"
+		},
 		Gen: func(tier string, emit func(any) bool) {
 			extra := []string{"tags", ".tags[", ".tags..[]", ".tags ", ".a.b", ".a[0]?", `.["a b"]`, ".a[1:2]", ".[]", ".a?.b?", ".a[", ".a]", `.a"`, `.a["b`, ".é", "a", "", " .a", ".a\n", ".a[-1]", ".a[:]", ".a[1:", ".a..b", ".?"}
 			for _, n := range names {
@@ -468,8 +476,8 @@ func c14ConstructedSub() *engine.Sub {
 		return nil
 	}
 	return &engine.Sub{
-		Name: "constructed-policy-roundtrip",
-		Rule: "every atom and composite statement of C11's universe built with the policy constructors: ToIPLD succeeds, FromIPLD(ToIPLD(p)) succeeds, writes back deep-equal, and has identical Match/PartialMatch on 48 data; also through DAG-JSON text; non-trivial = all",
+		Name:  "constructed-policy-roundtrip",
+		Rule:  "every atom and composite statement of C11's universe built with the policy constructors: ToIPLD succeeds, FromIPLD(ToIPLD(p)) succeeds, writes back deep-equal, and has identical Match/PartialMatch on 48 data; also through DAG-JSON text; non-trivial = all",
 		Bound: func(t string) string { return "C11 atoms (288) + C11 composites of the tier x 48 data" },
 		Setup: setup,
 		Gen: func(tier string, emit func(any) bool) {
